@@ -34,7 +34,7 @@ ASSUMPTIONS = [
     "detail texts contain no lines that look like TextTestResult section headers",
 ]
 
-BASES = ["TestResult", "TextTestResult", "Multi", "TSFR", "ETSD", "ETOD-py26", "Multi-py26", "ETOD-py27"]
+BASES = ["TestResult", "TextTestResult", "Multi", "TSFR", "ETSD", "ETOD-py26", "Multi-py26", "ETOD-py27", "Multi-hetero"]
 WRAPS = ["ETOD", "Decorator", "Tagger"]
 HIST = H.s_history(max_tests=4, with_control=False, with_tags=False, with_time=False, max_ops=22)
 
@@ -60,7 +60,8 @@ def s_case(draw):
         ops.append(op)
         if op["op"] in ("stopTest", "startTestRun") and draw(st.integers(0, 6)) == 0:
             # stop() on the outermost object or on any layer below it
-            ops.append({"op": "stop", "layer": draw(st.integers(0, len(wraps)))})
+            ops.append({"op": "stop", "layer": draw(st.integers(0, len(wraps))),
+                        "child": draw(st.integers(0, 2)) if base == "Multi-hetero" and draw(st.booleans()) else None})
         if op["op"] in ("stopTest", "startTestRun") and toggles and draw(st.integers(0, 3)) == 0:
             ops.append({"op": "failfast", "value": draw(st.booleans())})
         if op["op"] == "stopTest" and base == "TSFR" and ff in ("off", "before") and draw(st.integers(0, 3)) == 0:
@@ -94,6 +95,11 @@ def build(spec):
         under.append(r)
     elif b == "Multi":
         r = testtools.MultiTestResult(TR(), TR())
+    elif b == "Multi-hetero":
+        # constituents that are not alike: a bare result, one behind a Tagger, one behind a pass-through decorator
+        kids = [TR(), real.Tagger(TR(), {"y"}, set()), real.TestResultDecorator(TR())]
+        build.children = kids
+        r = testtools.MultiTestResult(*kids)
     elif b == "TSFR":
         sem = threading.Semaphore(1)
         target = TR()
@@ -142,6 +148,7 @@ def run_case(spec):
     driver = outer if direct else testtools.ExtendedToOriginalDecorator(outer)
     ff = spec["failfast"] != "off"
     latched = False             # a failing outcome arrived while failfast was on (since the last startTestRun)
+    child_stopped = set()       # (Multi-hetero) constituents that were told to stop individually
     bad = False
     bad_strict = False          # error/failure only (ETSD)
     stopped = False
@@ -170,6 +177,10 @@ def run_case(spec):
                         "wasSuccessful() is %r after %s on %s; failing outcome since last startTestRun: %r" % (ok, step, tag, bad)))
         want_stop = stopped or latched
         ss = outer.shouldStop
+        if child_stopped and not want_stop:
+            if not ss:
+                vs.append(V("stop", "Multi-ignores-a-stopped-constituent", "a constituent was stopped but the multiplexer's shouldStop is %r after %s on %s" % (ss, step, tag)))
+            return
         if bool(ss) != want_stop:
             vs.append(V("stop", "%s-failfast=%s-%s" % (spec["base"], spec["failfast"], "early" if ss else "missing"),
                         "shouldStop is %r after %s on %s (failfast=%s, stop() called=%r, failing outcome=%r)" % (
@@ -177,7 +188,14 @@ def run_case(spec):
         for sib in getattr(build, "siblings", []):
             if bool(sib.shouldStop) != want_stop and not (bool(ss) != want_stop):
                 vs.append(V("stop", "sibling-forwarder", "a second ThreadsafeForwardingResult on the same target has shouldStop=%r, the first says %r after %s" % (sib.shouldStop, ss, step)))
-        for u in ([] if direct else under):
+        for ui, u in enumerate([] if direct else under):
+            if child_stopped and ui in child_stopped and not want_stop:
+                # stop() went to one constituent only: that one is stopped (and so the multiplexer says stop)
+                if not u.shouldStop:
+                    vs.append(V("stop", "constituent-not-stopped", "stop() on constituent %d did not reach its underlying result (after %s)" % (ui, step)))
+                continue
+            if child_stopped and not want_stop:
+                continue
             if bool(u.shouldStop) != want_stop and not (bool(ss) != want_stop):
                 vs.append(V("stop", "underlying-%s" % spec["base"], "an underlying result has shouldStop=%r, outer says %r after %s" % (u.shouldStop, ss, step)))
         # the verdict as seen through every other door to the same result(s)
@@ -196,6 +214,7 @@ def run_case(spec):
             driver.startTestRun()
             if not direct:      # 2.6/2.7-style targets know nothing of runs: their verdict and stop flag persist
                 bad = bad_strict = stopped = latched = False
+                child_stopped.clear()
             restarts += 1
         elif k == "stopTestRun":
             driver.stopTestRun()
@@ -224,6 +243,9 @@ def run_case(spec):
                     pass
         elif k == "stopTest":
             driver.stopTest(cur)
+        elif k == "stop" and op.get("child") is not None and spec["base"] == "Multi-hetero":
+            build.children[op["child"]].stop()
+            child_stopped.add(op["child"])
         elif k == "stop":
             getattr(build, "layers", [outer])[min(op.get("layer", 0), len(build.layers) - 1)].stop()
             stopped = True
